@@ -59,14 +59,16 @@ func (m *termMonitor) wait(termOnNoHandlers bool) os.Signal {
 	// number of pending handlers has hit 0.  In the case of the
 	// latter, treat it as if a SIGTERM has been received.
 	for {
+		// Check before blocking as well, so that the wait terminates
+		// immediately if there are no handlers active to begin with.
+		if termOnNoHandlers && m.numHandlers == 0 {
+			return syscall.SIGTERM
+		}
 		select {
 		case n := <-m.handlerChan:
 			m.numHandlers += n
 		case sig := <-m.sigChan:
 			return sig
-		}
-		if termOnNoHandlers && m.numHandlers == 0 {
-			return syscall.SIGTERM
 		}
 	}
 }
